@@ -3,7 +3,8 @@
    implementation; every projected observable must agree.
 
    Observables per definition: accepted (constructor attributes in positional order with kind, type and
-   value, required count, the set of equality attribute names) or the error code.
+   value, required count, the set of equality attribute names, the parameter type of the named constructor:
+   member names, which may be left out, derived value types) or the error code.
    Per construction request: the error code, or for every asked name Get (found/value/error) and the
    read through the type (Member(n).Get), the init-hash, and IsInstance against every accepted
    definition of the world.  Per pair of constructed objects: Equals (false / true / raised / not applicable). *)
@@ -14,7 +15,8 @@ Open Scope Z_scope.
 
 Inductive defobs :=
 | DRej (e : ecode)
-| DAcc (info : list (str * kind * ty * option value)) (req : nat) (eq : list str).
+| DAcc (info : list (str * kind * ty * option value)) (req : nat) (eq : list str)
+       (init : ty).   (* the parameter type of the named constructor, as its signature prints it *)
 
 Record getobs := mkGet { g_name : str; g_get : result (option value); g_aget : aget }.
 
@@ -67,13 +69,16 @@ Definition eq_names (info : ainfo) : list str :=
 Definition check_def (r : result objdef) (o : defobs) : bool :=
   match r, o with
   | Err e, DRej e' => ecode_eqb e e'
-  | Ok d, DAcc info req eq =>
+  | Ok d, DAcc info req eq init =>
     list_eqb attrobs_eqb (map obs_of_attr (ai_attrs (d_info d))) info
     && Nat.eqb (ai_req (d_info d)) req
     && same_set (eq_names (d_info d)) eq
     (* the hypothesis of the theorems of Properties/C17.v holds of every accepted definition outside the
        input class of the open finding *)
     && (negb (ser_complete d) || info_wf (d_info d))
+    (* createInitType / typeAndInit: the Struct the named constructor checks its argument against (a name listed twice
+       in a serialization list makes it a Struct with a repeated key: open finding) *)
+    && (negb (ser_complete d) || ty_eqb (init_type (d_info d)) init)
   | _, _ => false
   end.
 
